@@ -26,7 +26,8 @@ CLAIM = ('Both back-ends implement the complete primitive interface with the bas
          'ends; the DOM attribute wrapper keeps the Mapping contract (KeyError for a missing name) that `in` '
          'relies on. A node that may already have a parent is detached before it is attached elsewhere '
          '(minidom moves, ElementTree duplicates); the builder-module cache keys on keyword values.'
-         " The DOM doctype name goes through minidom's qualified-name split (read off the standard library's source) and plain attribute names are stored verbatim as ElementTree keys, where `{..}` reads as Clark notation (two known findings).")
+         " The DOM doctype name goes through minidom's qualified-name split (read off the standard library's source) and plain attribute names are stored verbatim as ElementTree keys, where `{..}` reads as Clark notation (two known findings)."
+         ' In the ElementTree back-end the two child lists are written only through self inside the attach / detach primitives (who-may-write), so no node moves without its parent link.')
 NOT_DECIDED = "text placement (.text/.tail arithmetic), fragment extraction, equality of the resulting trees as such."
 MODULES = ["treebuilders/base.py", "treebuilders/etree.py", "treebuilders/dom.py", "treebuilders/__init__.py"]
 
